@@ -313,6 +313,14 @@ class Exec:
                 return None
             d = self.decide(("bin", "==", c[2], c[3]), st)
             return None if d is None else (not d)
+        if t == "cond":
+            d = self.decide(c[1], st)
+            if d is True:
+                return self.decide(c[2], st)
+            if d is False:
+                return self.decide(c[3], st)
+            a, b = self.decide(c[2], st), self.decide(c[3], st)
+            return a if a is not None and a == b else None
         n = lname(c)
         if n is not None:
             if n in st.flags and st.flags[n] in (True, False):
@@ -335,6 +343,13 @@ class Exec:
             return self.refine(c[2], st, not truth)
         if t == "cast":
             return self.refine(c[2], st, truth)
+        if t == "cond":
+            dd = self.decide(c[1], st)
+            if dd is True:
+                return self.refine(c[2], st, truth)
+            if dd is False:
+                return self.refine(c[3], st, truth)
+            return st      # selector unknown: no refinement (sound)
         if t == "bin" and c[1] in ("&&", "||"):
             conj = (c[1] == "&&") == truth
             if conj:
